@@ -30,8 +30,31 @@ interleaving of such steps *per location* (coherence); memory-model subtleties b
 coherence (there is no cross-location reasoning to do: handle-local data is not shared and `Shared` is
 immutable after `Arc::new`) and real OS scheduling are outside the model.
 
-Scope: entries are not encrypted; checksum failures are not modelled (archives are well-formed apart
-from the explicitly modelled header failures); the reader is `Cursor`-like (seeking never fails except on
+Encrypted entries and passwords (round 3)
+* `by_index_decrypt(i, pw)` / `by_name(name)` / `by_name_decrypt(name, pw)` are the same three atomic steps:
+  a name is resolved through the immutable `names_map` (last duplicate wins; an absent name and an
+  out-of-range index both end in `FileNotFound` before anything is touched); an encrypted entry opened
+  WITHOUT a password is refused (`PASSWORD_REQUIRED`) before `find_content`, i.e. without seek or store;
+  a password given for a plain entry is discarded.
+* What `make_crypto_reader` answers for an encrypted entry and a password — key derivation, the AES
+  verifier / ZipCrypto check byte, and what the decrypting + decoding pipeline then delivers — is the
+  PARAMETER `Arch.unlock : entry index → password → Unlock` (C15 / C16 are about what it computes).  The
+  point of this model: it is a function of the immutable archive, the entry and the password ALONE; no
+  handle-shared state enters.  A crate that lets one handle's successful validation influence another
+  handle's (a shared key cache) is not an instance of this model and disagrees with it on a two-handle
+  script (right password on one clone, wrong password on the other).
+* A read that reaches the end of a decoded entry whose CRC-32 (or authentication code) does not match
+  fails: `OpenFile.eofErr` (given data for plain entries: `Entry.eofErr`; part of `Unlock.opens` for
+  encrypted ones).  The harness's read call loops until `n` bytes or end of file, so the error replaces the
+  bytes of the call that hits the end; it is sticky.
+
+Hypothesis on the reader type (explicit in `Props/C20.lean`): each handle owns its reader position
+(`Handle.pos`); i.e. `R::clone` yields a reader with its OWN cursor over the same bytes (`Cursor<Vec<u8>>`,
+`Cursor<Arc<[u8]>>`, a re-opened `File`).  `ZipArchive<&File>` / `try_clone`d files share the OS offset and
+are NOT instances (see `SharedPos` in the Props file for the counterexample in the model's terms).
+
+Scope: checksum failures in the MIDDLE of a stream (decoder errors) are not modelled (archives are well-formed apart
+from the explicitly modelled header failures and end-of-entry check failures); the reader is `Cursor`-like (seeking never fails except on
 `u64` overflow).  For a decoded non-stored entry the decoder's `BufReader` slurps the whole `Take` on the
 first read — the resulting reader position is unobservable (every later `open` re-seeks absolutely) and is
 modelled as "end of the compressed stream".
@@ -53,11 +76,48 @@ structure Entry where
   decodable : Bool
   /-- decoded content (used for non-stored entries; for stored entries the archive bytes are read). -/
   content : Bytes
+  /-- general-purpose bit 0 (`ZipFileData.encrypted`). -/
+  encrypted : Bool := false
+  /-- plain entry, decoding open: the read that reaches the end of the entry fails with this kind
+  (`Crc32Reader`: "Invalid checksum" = `Other`) instead of returning; `none` = the CRC-32 matches. -/
+  eofErr : Option IoKind := none
+  deriving DecidableEq
+
+/-- What opening an ENCRYPTED entry with a password yields (`make_crypto_reader` and the pipeline behind it). -/
+inductive Unlock
+  /-- `Ok(Err(InvalidPassword))`: AES verification value / ZipCrypto check byte mismatch. -/
+  | wrong
+  /-- `Err(e)`, e.g. an AES entry shorter than salt + verifier + authentication code. -/
+  | fails (e : ZErr)
+  /-- validation passed: reads deliver `content`, then end of file or `eofErr` (CRC-32 / HMAC mismatch —
+  e.g. a wrong ZipCrypto password that passes the 1-byte check). -/
+  | opens (content : Bytes) (eofErr : Option IoKind)
   deriving DecidableEq
 
 structure Arch where
   bytes : Bytes
   entries : List Entry
+  /-- Parameter: outcome of validation + decryption + decoding as a function of (entry index, password)
+  only.  Never consulted for plain entries. -/
+  unlock : Nat → Bytes → Unlock := fun _ _ => .wrong
+
+/-- How an entry is opened. -/
+inductive Mode
+  | raw                 -- `by_index_raw`
+  | noPw                -- `by_index` / `by_name`
+  | pw (p : Bytes)      -- `by_index_decrypt` / `by_name_decrypt`
+  deriving DecidableEq
+
+/-- `names_map.get(name)`: the LAST entry with that name; an absent name is mapped to the first
+out-of-range index (both paths are `ok_or(FileNotFound)` before anything else happens). -/
+def nameIndexAux (name : Bytes) : List Entry → Nat → Option Nat → Option Nat
+  | [], _, acc => acc
+  | e :: es, k, acc => nameIndexAux name es (k + 1) (if e.name = name then some k else acc)
+
+def Arch.nameIndex (A : Arch) (name : Bytes) : Nat :=
+  match nameIndexAux name A.entries 0 none with
+  | some i => i
+  | none => A.entries.length
 
 /-- Result of the local-header part of `find_content` (everything before the store). -/
 inductive HdrRes
@@ -99,10 +159,26 @@ def Arch.f (A : Arch) (i : Nat) : Option UInt64 :=
     | .ok v => some v
     | _ => none
 
+/-- `(None, true)` in `by_index_with_optional_password`: no password given, entry encrypted. -/
+def needsPw (m : Mode) (e : Entry) : Bool :=
+  match m with
+  | .noPw => e.encrypted
+  | _ => false
+
+/-- Does an open of entry `i` in mode `m` reach the store, and with which value: `by_index`/`by_name` on an
+encrypted entry is refused before `find_content`. -/
+def Arch.g (A : Arch) (i : Nat) (m : Mode) : Option UInt64 :=
+  match A.entries[i]? with
+  | none => none
+  | some e => if needsPw m e then none else A.f i
+
 /-- API calls of one handle. -/
 inductive Op
   | openIdx (i : Nat)     -- `archive.by_index(i)` (drops the previously open file first)
   | openRaw (i : Nat)     -- `archive.by_index_raw(i)`
+  | openDec (i : Nat) (p : Bytes)          -- `archive.by_index_decrypt(i, p)`
+  | openName (name : Bytes)                -- `archive.by_name(name)`
+  | openNameDec (name : Bytes) (p : Bytes) -- `archive.by_name_decrypt(name, p)`
   | read (n : Nat)        -- read up to `n` bytes of the open file (loops until `n` or EOF)
   | dataStart             -- `file.data_start()`
   | info                  -- `file.name_raw()`, `size()`, `crc32()`, `header_start()`
@@ -115,7 +191,9 @@ inductive Obs
   | opened
   | openErr (e : ZErr)
   | openPanic
+  | invalidPassword       -- `Ok(Err(InvalidPassword))`
   | bytes (b : Bytes)
+  | readErr (k : IoKind)  -- the read call failed (end-of-entry check)
   | dataStart (v : UInt64)
   | info (name : Bytes) (size : UInt64) (crc : UInt32) (headerStart : UInt64)
   | closed
@@ -128,17 +206,20 @@ inductive Obs
 /-- Program counter inside `by_index*` (between its atomic steps). -/
 inductive Pc
   | idle
-  | storing (i : Nat) (raw : Bool) (v : UInt64)
-  | seeking (i : Nat) (raw : Bool) (v : UInt64)
+  | storing (i : Nat) (m : Mode) (v : UInt64)
+  | seeking (i : Nat) (m : Mode) (v : UInt64)
   deriving DecidableEq
 
 /-- An open `ZipFile`. `direct`: reads go straight to the reader (`Raw` or `Stored`); `remaining` is the
-`Take` limit left; `consumed` counts decoded bytes handed out. -/
+`Take` limit left; `consumed` counts decoded bytes handed out; `content` is what a decoding (non-direct)
+file delivers; `eofErr` the failure of the read that reaches the end. -/
 structure OpenFile where
   idx : Nat
   direct : Bool
   remaining : Nat
   consumed : Nat
+  content : Bytes := []
+  eofErr : Option IoKind := none
   deriving DecidableEq
 
 structure Handle where
@@ -154,26 +235,51 @@ def Handle.init (script : List Op) : Handle := ⟨script, .idle, 0, none, []⟩
 def Handle.emit (h : Handle) (o : Obs) : Handle := { h with obs := h.obs ++ [o] }
 
 /-- First atomic step of `by_index*`: everything before the store. -/
-def beginOpen (A : Arch) (h : Handle) (i : Nat) (raw : Bool) : Handle :=
+def beginOpen (A : Arch) (h : Handle) (i : Nat) (m : Mode) : Handle :=
   -- the previous `ZipFile` had to be dropped before the archive can be borrowed again
   let h := { h with file := none }
   match A.entries[i]? with
   | none => h.emit (.openErr .fileNotFound)
   | some e =>
+    -- `(None, true) => return Err(UnsupportedArchive(PASSWORD_REQUIRED))`: before any seek or store
+    if needsPw m e then h.emit (.openErr .passwordRequired) else
     match findContent A.bytes e.headerStart with
-    | .ok v => { h with pc := .storing i raw v, pos := e.headerStart.toNat + 30 }
+    | .ok v => { h with pc := .storing i m v, pos := e.headerStart.toNat + 30 }
     | .err er => { h with pos := e.headerStart.toNat }.emit (.openErr er)
     | .panic => { h with pos := e.headerStart.toNat + 30 }.emit .openPanic
 
 /-- Last atomic step of `by_index*`: seek to the stored value, build the `ZipFile`. -/
-def finishOpen (A : Arch) (h : Handle) (i : Nat) (raw : Bool) (v : UInt64) : Handle :=
+def finishOpen (A : Arch) (h : Handle) (i : Nat) (m : Mode) (v : UInt64) : Handle :=
   let h := { h with pc := .idle, pos := v.toNat, file := none }
   match A.entries[i]? with
   | none => h.emit (.openErr .fileNotFound)       -- unreachable (the entry existed in step 1)
   | some e =>
-    if raw || e.decodable then
-      { h with file := some ⟨i, raw || e.stored, e.compSize.toNat, 0⟩ }.emit .opened
-    else h.emit (.openErr .unsupportedArchive)
+    match m with
+    | .raw => { h with file := some ⟨i, true, e.compSize.toNat, 0, [], none⟩ }.emit .opened
+    | .noPw =>
+      -- (an encrypted entry never gets here: refused in step 1)
+      if e.decodable then
+        { h with file := some ⟨i, e.stored, e.compSize.toNat, 0, e.content, e.eofErr⟩ }.emit .opened
+      else h.emit (.openErr .unsupportedArchive)
+    | .pw p =>
+      -- the method check of `make_crypto_reader` comes before any validation
+      if !e.decodable then h.emit (.openErr .unsupportedArchive)
+      else if !e.encrypted then
+        -- "Password supplied, but none needed! Discard."
+        { h with file := some ⟨i, e.stored, e.compSize.toNat, 0, e.content, e.eofErr⟩ }.emit .opened
+      else
+        -- the ONLY place a password is looked at: a function of (entry, password)
+        match A.unlock i p with
+        | .wrong => h.emit .invalidPassword
+        | .fails er => h.emit (.openErr er)
+        | .opens c ee => { h with file := some ⟨i, false, e.compSize.toNat, 0, c, ee⟩ }.emit .opened
+
+/-- What the read call returns: the bytes, unless the call reached the end of the entry (it got fewer
+than the `n` it loops for) and the end-of-entry check fails. -/
+def readObs (fl : OpenFile) (got : Bytes) (n : Nat) : Obs :=
+  match fl.eofErr with
+  | some k => if got.length < n then .readErr k else .bytes got
+  | none => .bytes got
 
 def doRead (A : Arch) (h : Handle) (n : Nat) : Handle :=
   match h.file with
@@ -183,20 +289,20 @@ def doRead (A : Arch) (h : Handle) (n : Nat) : Handle :=
       let got := (A.bytes.drop h.pos).take (min n fl.remaining)
       { h with pos := h.pos + got.length,
                file := some { fl with remaining := fl.remaining - got.length,
-                                      consumed := fl.consumed + got.length } }.emit (.bytes got)
+                                      consumed := fl.consumed + got.length } }.emit (readObs fl got n)
     else
-      match A.entries[fl.idx]? with
-      | none => h.emit .noFile                    -- unreachable
-      | some e =>
-        let got := (e.content.drop fl.consumed).take n
-        { h with pos := h.pos + fl.remaining,
-                 file := some { fl with remaining := 0, consumed := fl.consumed + got.length } }.emit (.bytes got)
+      let got := (fl.content.drop fl.consumed).take n
+      { h with pos := h.pos + fl.remaining,
+               file := some { fl with remaining := 0, consumed := fl.consumed + got.length } }.emit (readObs fl got n)
 
 /-- A call that starts while the handle is idle: its first (for everything but `by_index*`: its only)
 atomic step. Reads the cells only for `dataStart` (one load), never writes them. -/
 def doOp (A : Arch) (cells : List UInt64) (h : Handle) : Op → Handle
-  | .openIdx i => beginOpen A h i false
-  | .openRaw i => beginOpen A h i true
+  | .openIdx i => beginOpen A h i .noPw
+  | .openRaw i => beginOpen A h i .raw
+  | .openDec i p => beginOpen A h i (.pw p)
+  | .openName nm => beginOpen A h (A.nameIndex nm) .noPw
+  | .openNameDec nm p => beginOpen A h (A.nameIndex nm) (.pw p)
   | .read n => doRead A h n
   | .dataStart =>
     match h.file with
@@ -225,12 +331,21 @@ def doOp (A : Arch) (cells : List UInt64) (h : Handle) : Op → Handle
 only `dataStart` reads them. -/
 def stepH (A : Arch) (cells : List UInt64) (h : Handle) : List UInt64 × Handle :=
   match h.pc with
-  | .storing i raw v => (cells.set i v, { h with pc := .seeking i raw v })
-  | .seeking i raw v => (cells, finishOpen A h i raw v)
+  | .storing i m v => (cells.set i v, { h with pc := .seeking i m v })
+  | .seeking i m v => (cells, finishOpen A h i m v)
   | .idle =>
     match h.script with
     | [] => (cells, h)
     | op :: rest => (cells, doOp A cells { h with script := rest } op)
+
+/-- The opening calls: which entry (names resolved through the immutable name map) and in which mode. -/
+def Op.target (A : Arch) : Op → Option (Nat × Mode)
+  | .openIdx i => some (i, .noPw)
+  | .openRaw i => some (i, .raw)
+  | .openDec i p => some (i, .pw p)
+  | .openName nm => some (A.nameIndex nm, .noPw)
+  | .openNameDec nm p => some (A.nameIndex nm, .pw p)
+  | _ => none
 
 /-- Cells right after `ZipArchive::new`: every `data_start` is 0. -/
 def initCells (A : Arch) : List UInt64 := A.entries.map (fun _ => 0)
@@ -244,8 +359,11 @@ def soloRun (A : Arch) (cells : List UInt64) (h : Handle) : Nat → List UInt64 
 
 /-- Number of atomic steps of one call (static: depends on the immutable archive only). -/
 def opSteps (A : Arch) : Op → Nat
-  | .openIdx i => if (A.f i).isSome then 3 else 1
-  | .openRaw i => if (A.f i).isSome then 3 else 1
+  | .openIdx i => if (A.g i .noPw).isSome then 3 else 1
+  | .openRaw i => if (A.g i .raw).isSome then 3 else 1
+  | .openDec i p => if (A.g i (.pw p)).isSome then 3 else 1
+  | .openName nm => if (A.g (A.nameIndex nm) .noPw).isSome then 3 else 1
+  | .openNameDec nm p => if (A.g (A.nameIndex nm) (.pw p)).isSome then 3 else 1
   | _ => 1
 
 def atomicSteps (A : Arch) (script : List Op) : Nat := (script.map (opSteps A)).sum
